@@ -1,29 +1,44 @@
-"""C05 — lifting schemes balance the flow.  D: Lifting.tla (every zero-sum integer table);  R: every (scheme, table,
-active unit, draw) on the real classes, with one long-lived object per scheme (reset between tables, as the event
-handlers use them) and a fresh object per case;  T: lifting records of real runs (checks/runlevel.py)."""
+"""C05 — lifting schemes balance the flow.
+D: Lifting.tla (every zero-sum integer table; FlowBalance, NegativeOnly).
+R/T at the level of the property: the real lifting classes (one long-lived object per scheme, reset between tables as
+   the event handlers use them, and a fresh object per table) and the real composite-object event handler (2+2 and 3+3
+   point masses, scripted pair derivatives, every point mass active in turn) are driven through every unit piece of the
+   draw range; TraceLifting.tla counts what they selected: inflow into k == |t[k]|, nothing non-negative selected.
+   The routing of Lifting.tla itself is compared too, but a different balanced routing is reported as a note only.
+T: lifting records of real runs (checks/runlevel.py)."""
+import json
+
 from harness import opcheck
 from harness.build import Scratch
+
+
+def _key(rec, clause):
+    if clause.startswith("endpoint"):
+        return "endpoint:zero-rate-selected"
+    return "trace:" + clause.split(":")[0]
 
 
 def run(chk):
     chk.assumptions += ["integer rate tables of length <= 5 (quick) / 6 (thorough) over -2..2 summing to zero; draws at the "
                         "mid-point of every unit piece of the draw interval plus the two end points; near-cancelling float "
-                        "tables are outside the lattice"]
+                        "tables are outside the lattice",
+                        "handler level: pair derivatives in {-1, 0, 1} between 2+2 and 3+3 point masses (scripted "
+                        "potential), events confirmed by a forced draw"]
     with Scratch() as sc:
         cfg = "Lifting_6.cfg" if chk.tier == "thorough" else "Lifting_quick.cfg"
-        tab = opcheck.design_and_table(chk, sc, "Lifting", cfg, "harness.drive_lifting", workers=8, timeout=1500)
+        tab = opcheck.design_and_table(chk, sc, "Lifting", cfg, "harness.drive_lifting", workers=8, timeout=1500,
+                                       replay=False)
         if tab:
             chk.sample(tab["rows"][len(tab["rows"]) // 2])
-            # design-level end-point clause: a draw exactly on an interval boundary must not select a unit whose
-            # derivative is not negative
-            for row in tab["rows"]:
-                t = row["t"]
-                for i, sel in enumerate(row["end"]):
-                    if t[sel - 1] >= 0:
-                        scheme = ("inside", "outside", "ratio")[i % 3]
-                        chk.violation("endpoint:zero-rate-selected",
-                                      "%s lifting selects a unit with derivative %d when the draw is exactly %s "
-                                      "(table %s, active %d); real classes replayed on the same draw agree with the model"
-                                      % (scheme, t[sel - 1], "0.0" if i < 3 else "the upper end", t, row["a"]), row)
+            for idx, mode, args in (("classes", "flows", [tab["_path"]]),
+                                    ("handler", "handler", [4000 if chk.tier == "thorough" else 400])):
+                opcheck.key_trace(chk, sc, "TraceLifting", "harness.drive_lifting", idx, args, keyfn=_key, mode=mode)
+                try:
+                    notes = json.load(open("%s/TraceLifting_%s.ndjson.notes.json" % (sc.dir, idx)))
+                    if notes["differs"]:
+                        chk.notes["routing_note"] = ("the routing of the real classes differs from the transcription in Lifting.tla "
+                                         "(balance is judged by TraceLifting.tla, not by this): %s" % notes["differs"][:2])
+                except OSError:
+                    pass
         from checks import runlevel
         runlevel.run_for(chk, "C05")
